@@ -100,7 +100,7 @@ def grid_specs(pp, rng, quick):
         variants = [("regular", g0.nodes.copy())]
         if g0.num_nodes > 2 or dim > 1:
             h = np.min(np.diff(b["x"])) if dim == 1 else min(p / k for p, k in zip(b["phys"], b["n"]))
-            for rate in ((0.2,) if quick else (0.1, 0.25)):
+            for rate in ((0.1, 0.25) if quick else (0.05, 0.1, 0.2, 0.25)):
                 for _ in range(20):
                     nodes = g0.nodes.copy()
                     for i in range(dim):
@@ -114,7 +114,7 @@ def grid_specs(pp, rng, quick):
         for vname, nodes in variants:
             out.append(dict(b, nodes=np.round(nodes, 12).tolist(), variant=vname, R=None))
             if dim < 3:
-                rots = [_rot([1, 1, -1], -np.pi / 4), _rot([0.2, -1, 0.5], 1.1)] if not quick else [_rot([1, 1, -1], -np.pi / 4)]
+                rots = [_rot([1, 1, -1], -np.pi / 4), _rot([0.2, -1, 0.5], 1.1)] + ([] if quick else [_rot([0, 1, 0], np.pi / 2), _rot([1, 0, 0], 2.5)])
                 for R in rots:
                     out.append(dict(b, nodes=np.round(R @ nodes, 12).tolist(), variant=vname + "+embedded", R=np.round(R, 15).tolist()))
     return out
@@ -226,7 +226,7 @@ def run(rep):
              "perturbation, affine image} x {in place, rigidly rotated into 3-D (1-D and 2-D grids)} x constant SPD K {isotropic, diagonal, "
              "full}; all-Dirichlet data of the complete affine basis {1,x,y,z} (= all linear pressures by linearity); distinct by (method, "
              "grid nodes, tensor); non-trivial = perturbed / affine / embedded grid or anisotropic K",
-        bound="1-D <= 5 cells, 2-D <= 4x3x2 triangles, 3-D <= 48 tetrahedra; perturbation <= 0.25 h; 1-2 rotations",
+        bound="1-D <= 5 cells, 2-D <= 4x3x2 triangles, 3-D <= 48 tetrahedra; perturbation <= 0.25 h; " + ("2" if quick else "4") + " rotations",
         exhaustive=False,
     ) as sw:
         for spec in grid_specs(pp, rng, quick):
